@@ -245,3 +245,199 @@ Section SearchTerm.
     rewrite B1, B2. unfold margin_clip. destruct b; try (eexists; eexists; reflexivity). congruence.
   Qed.
 End SearchTerm.
+
+(* ====================================================================== *)
+(* 3. the Epanechnikov distribution function is Lipschitz with constant 3/(4h) *)
+(* ====================================================================== *)
+(* P(v) - P(u) = (v - u) (3 - (u^2 + u v + v^2)) / 4 <= 3/4 (v - u)  for u <= v *)
+Lemma epan_poly_lip (u v : Q) : u <= v ->
+  (1 # 4) * (2 + 3 * v - v * v * v) - (1 # 4) * (2 + 3 * u - u * u * u) <= (3 # 4) * (v - u).
+Proof.
+  intro H.
+  assert (E : (3 # 4) * (v - u) - ((1 # 4) * (2 + 3 * v - v * v * v) - (1 # 4) * (2 + 3 * u - u * u * u))
+              == (1 # 4) * ((v - u) * (u * u + u * v + v * v))) by ring.
+  assert (0 <= (v - u) * (u * u + u * v + v * v)); [|lra].
+  apply Qmult_le_0_compat; [lra|]. nra.
+Qed.
+
+(* epan_cdf h x = P(u) with u = x/h clamped to [-1, 1] *)
+Lemma epan_cdf_clamp (h x : Q) : 0 < h ->
+  exists u : Q, epan_cdf h x == (1 # 4) * (2 + 3 * u - u * u * u) /\
+    ((x <= - h /\ u == -1) \/ (- h < x /\ x <= h /\ u * h == x) \/ (h < x /\ u == 1)).
+Proof.
+  intro Hh. destruct (Qlt_le_dec (- h) x) as [A|A].
+  - destruct (Qlt_le_dec h x) as [B|B].
+    + exists 1. split; [rewrite epan_cdf_right by lra; ring | right; right; split; [exact B | reflexivity]].
+    + exists (x / h). split; [apply epan_cdf_mid; assumption|]. right; left.
+      split; [exact A|]. split; [exact B | field; lra].
+  - exists (-1). split; [rewrite epan_cdf_left by lra; ring | left; split; [exact A | reflexivity]].
+Qed.
+
+Theorem epan_cdf_lipschitz (h s t : Q) : 0 < h -> s <= t ->
+  epan_cdf h t - epan_cdf h s <= (3 # 4) / h * (t - s).
+Proof.
+  intros Hh Hst.
+  destruct (epan_cdf_clamp h s Hh) as (u & Eu & Cu). destruct (epan_cdf_clamp h t Hh) as (v & Ev & Cv).
+  rewrite Eu, Ev.
+  assert (K : u <= v /\ (v - u) * h <= t - s).
+  { destruct Cu as [[S1 U]|[(S1 & S2 & U)|[S1 U]]]; destruct Cv as [[T1 V]|[(T1 & T2 & V)|[T1 V]]];
+      try (exfalso; lra).
+    - rewrite U, V. split; lra.
+    - rewrite U. assert (-1 < v) by nra. split; [lra|]. lra.
+    - rewrite U, V. split; lra.
+    - assert (u <= v) by nra. split; [lra|]. lra.
+    - rewrite V. assert (u <= 1) by nra. split; [lra|]. lra.
+    - rewrite U, V. split; lra. }
+  destruct K as [K1 K2].
+  apply Qle_trans with ((3 # 4) * (v - u)); [apply epan_poly_lip; exact K1|].
+  assert (E : (3 # 4) / h * (t - s) == (3 # 4) * ((t - s) / h)) by (field; lra). rewrite E.
+  assert (v - u <= (t - s) / h) by (apply Qle_shift_div_l; assumption). lra.
+Qed.
+
+(* a weighted average of L-Lipschitz functions is L-Lipschitz *)
+Lemma Qsum_scal {A} (w : A -> Q) (c : Q) (l : list A) :
+  Qsum (map (fun p => w p * c) l) == c * Qsum (map w l).
+Proof. induction l as [|p l IH]; cbn [map Qsum]; [ring | rewrite IH; ring]. Qed.
+
+Lemma wavg_lipschitz (ps : list (Q * Q)) (g : Q -> Q) (L : Q) : pairs_ok ps ->
+  (forall s t : Q, s <= t -> g t - g s <= L * (t - s)) ->
+  forall x y : Q, x <= y -> wavg g ps y - wavg g ps x <= L * (y - x).
+Proof.
+  intros ok G x y Hxy. pose proof (wtotal_pos ps ok) as Wp.
+  assert (wpos : forall p, In p ps -> 0 < snd p).
+  { destruct ok as [_ Fa]. rewrite Forall_forall in Fa. exact Fa. }
+  unfold wavg.
+  assert (S : Qsum (map (fun p => snd p * g (y - fst p)) ps) - Qsum (map (fun p => snd p * g (x - fst p)) ps)
+              <= L * (y - x) * wtotal ps).
+  { rewrite Qsum_minus. unfold wtotal. rewrite <- (Qsum_scal snd (L * (y - x)) ps).
+    apply Qsum_le. intros p Hp. pose proof (wpos p Hp) as W.
+    assert (H : x - fst p <= y - fst p) by lra. pose proof (G _ _ H) as H'.
+    assert (E : L * (y - fst p - (x - fst p)) == L * (y - x)) by ring. rewrite E in H'.
+    set (c := L * (y - x)) in *. set (a := g (y - fst p)) in *. set (b := g (x - fst p)) in *. nra. }
+  set (W := wtotal ps) in *.
+  set (a := Qsum (map (fun p => snd p * g (y - fst p)) ps)) in *.
+  set (b := Qsum (map (fun p => snd p * g (x - fst p)) ps)) in *.
+  assert (E : a / W - b / W == (a - b) / W) by (field; lra). rewrite E.
+  apply Qle_shift_div_r; [exact Wp | exact S].
+Qed.
+
+(* ====================================================================== *)
+(* 4. instance: the model's Epanechnikov KDE, no boundary or one boundary   *)
+(* ====================================================================== *)
+(* reflection at one boundary doubles the Lipschitz constant *)
+Lemma refl_low_lipschitz (G F : Q -> Q) (L m : Q) : 0 < L ->
+  (forall x y : Q, x <= y -> G y - G x <= L * (y - x)) ->
+  (forall x : Q, (x < m -> F x == 0) /\ (m <= x -> F x == G x - G (2 * m - x))) ->
+  forall x y : Q, x <= y -> F y - F x <= 2 * L * (y - x).
+Proof.
+  intros HL Lip D x y Hxy. destruct (D x) as [X1 X2]. destruct (D y) as [Y1 Y2].
+  destruct (Qlt_le_dec x m) as [A|A]; destruct (Qlt_le_dec y m) as [B|B].
+  - rewrite (X1 A), (Y1 B). nra.
+  - rewrite (X1 A), (Y2 B). assert (Hr : 2 * m - y <= y) by lra. pose proof (Lip _ _ Hr). nra.
+  - exfalso. lra.
+  - rewrite (X2 A), (Y2 B). pose proof (Lip x y Hxy). assert (Hr : 2 * m - y <= 2 * m - x) by lra.
+    pose proof (Lip _ _ Hr). nra.
+Qed.
+Lemma refl_high_lipschitz (G F : Q -> Q) (L M : Q) : 0 < L ->
+  (forall x y : Q, x <= y -> G y - G x <= L * (y - x)) ->
+  (forall x : Q, (M <= x -> F x == 1) /\ (x < M -> F x == G x + (1 - G (2 * M - x)))) ->
+  forall x y : Q, x <= y -> F y - F x <= 2 * L * (y - x).
+Proof.
+  intros HL Lip D x y Hxy. destruct (D x) as [X1 X2]. destruct (D y) as [Y1 Y2].
+  destruct (Qlt_le_dec x M) as [A|A]; destruct (Qlt_le_dec y M) as [B|B].
+  - rewrite (X2 A), (Y2 B). pose proof (Lip x y Hxy). assert (Hr : 2 * M - y <= 2 * M - x) by lra.
+    pose proof (Lip _ _ Hr). nra.
+  - rewrite (X2 A), (Y1 B). assert (Hr : x <= 2 * M - x) by lra. pose proof (Lip _ _ Hr). nra.
+  - exfalso. lra.
+  - rewrite (X1 A), (Y1 B). nra.
+Qed.
+
+Lemma pairs_within_exists (ps : list (Q * Q)) : exists lo hi : Q, pairs_within lo hi ps.
+Proof.
+  induction ps as [|p ps (lo & hi & IH)]; [exists 0, 0; constructor|].
+  exists (Qminb lo (fst p)), (Qmaxb hi (fst p)). constructor.
+  - unfold Qminb, Qmaxb. destruct (Qle_bool lo (fst p)) eqn:A, (Qle_bool hi (fst p)) eqn:B; qb; lra.
+  - unfold pairs_within in *. eapply Forall_impl; [|exact IH]. cbv beta. intros q [Q1 Q2].
+    unfold Qminb, Qmaxb. destruct (Qle_bool lo (fst p)) eqn:A, (Qle_bool hi (fst p)) eqn:B; qb; lra.
+Qed.
+
+(* the data inside the one boundary, if there is one (the property's quantifier); two
+   boundaries are not covered here *)
+Definition bounds_ok_half (k : kde) : Prop :=
+  match k_b k with
+  | BNone => True
+  | BLower m => exists hi : Q, pairs_within m hi (kde_ps k)
+  | BUpper M => exists lo : Q, pairs_within lo M (kde_ps k)
+  | _ => False
+  end.
+
+Section EpanTerm.
+  Variable k : kde.
+  Hypothesis ok : kde_ok k.
+  Hypothesis kern : k_kernel k = KEpan.
+  Hypothesis hok : bounds_ok_half k.
+
+  Let h_pos : 0 < k_h k. Proof. apply ok. Qed.
+  Let bok : bounds_ok k.
+  Proof. unfold bounds_ok. unfold bounds_ok_half in hok. destruct (k_b k); try exact I; contradiction. Qed.
+  Let L := (3 # 4) / k_h k.
+  Let L_pos : 0 < L. Proof. unfold L. apply Qlt_shift_div_l; lra. Qed.
+  Let G_lip : forall x y : Q, x <= y -> kde_F k y - kde_F k x <= L * (y - x).
+  Proof.
+    apply wavg_lipschitz; [apply kde_ps_ok, ok|]. intros s t. apply epan_cdf_lipschitz, h_pos.
+  Qed.
+
+  (* KDE.CDF of the model is Lipschitz: 3/(4h) without boundary, 3/(2h) with one *)
+  Lemma kde_cdf_q_lipschitz : forall x y : Q, x <= y -> kde_cdf_q k y - kde_cdf_q k x <= 2 * L * (y - x).
+  Proof.
+    unfold bounds_ok_half in hok. destruct (k_b k) as [|m|M|m M|] eqn:B; try contradiction.
+    - intros x y Hxy.
+      destruct (kde_unbounded_is_average k ok kern x B) as (? & cx & _ & Cx & _ & Ex).
+      destruct (kde_unbounded_is_average k ok kern y B) as (? & cy & _ & Cy & _ & Ey).
+      unfold kde_cdf_q. rewrite Cx, Cy, Ex, Ey. pose proof (G_lip x y Hxy). nra.
+    - apply (refl_low_lipschitz (kde_F k) (kde_cdf_q k) L m L_pos G_lip). intro x.
+      destruct (kde_lower_reflects k ok kern m x B) as [H1 H2]. unfold kde_cdf_q. split; intro H.
+      + destruct (H1 H) as [_ C]. rewrite C. reflexivity.
+      + destruct (H2 H) as (? & c & _ & C & _ & E). rewrite C. exact E.
+    - apply (refl_high_lipschitz (kde_F k) (kde_cdf_q k) L M L_pos G_lip). intro x.
+      destruct (kde_upper_reflects k ok kern M x B) as [H1 H2]. unfold kde_cdf_q. split; intro H.
+      + destruct (H1 H) as [_ C]. rewrite C. reflexivity.
+      + destruct (H2 H) as (? & c & _ & C & _ & E). rewrite C. exact E.
+  Qed.
+
+  (* far left the CDF is 0, far right it is 1 *)
+  Lemma kde_cdf_q_tails : exists A B : Q,
+    (forall x : Q, x <= A -> kde_cdf_q k x <= lowY) /\ (forall x : Q, B <= x -> highY <= kde_cdf_q k x).
+  Proof.
+    assert (W : exists lo hi : Q, pairs_within lo hi (kde_ps k) /\
+              match k_b k with BNone => True | BLower m => m <= lo | BUpper M => hi <= M | _ => False end).
+    { unfold bounds_ok_half in hok. destruct (k_b k) as [|m|M|m M|]; try contradiction.
+      - destruct (pairs_within_exists (kde_ps k)) as (lo & hi & H). exists lo, hi. split; [exact H | exact I].
+      - destruct hok as [hi H]. exists m, hi. split; [exact H | lra].
+      - destruct hok as [lo H]. exists lo, M. split; [exact H | lra]. }
+    destruct W as (lo & hi & Hin & Hb).
+    destruct (kde_cdf_limits k ok kern bok lo hi Hin Hb) as [T0 T1].
+    exists (lo - k_h k), (hi + k_h k). split; intros x Hx.
+    - rewrite (T0 x _ Hx (kde_cdf_q_epan k ok kern bok x)). unfold lowY. lra.
+    - rewrite (T1 x _ Hx (kde_cdf_q_epan k ok kern bok x)). unfold highY. lra.
+  Qed.
+
+  Theorem kde_bounds_search_terminates :
+    exists fuel0 : nat, forall fuel : nat, (fuel0 <= fuel)%nat ->
+      exists lo hi clo chi : Q, kde_bounds_search k fuel = BrOk lo hi /\
+        kde_cdf k lo = Some (XFin clo) /\ kde_cdf k hi = Some (XFin chi) /\
+        kde_bounds_ok (k_b k) (XFin lo) (XFin hi) (chi - clo) = true.
+  Proof.
+    destruct kde_cdf_q_tails as (A & B & TA & TB).
+    assert (L2 : 0 < 2 * L) by lra.
+    assert (Hb : k_b k <> BBad). { unfold bounds_ok_half in hok. destruct (k_b k); try discriminate. contradiction. }
+    assert (Hx : k_xs k <> []) by apply ok.
+    destruct (bounds_search_terminates (kde_cdf_q k) (2 * L) A B L2 kde_cdf_q_lipschitz TA TB (k_b k) (k_xs k) Hb Hx)
+      as [fuel0 T].
+    exists fuel0. intros fuel Hf. destruct (T fuel Hf) as (lo & hi & E).
+    assert (E' : kde_bounds_search k fuel = BrOk lo hi) by (unfold kde_bounds_search; rewrite kern; exact E).
+    destruct (kde_bounds_search_epan k ok kern bok fuel) as [_ S].
+    destruct (S lo hi E') as (clo & chi & C1 & C2 & Acc).
+    exists lo, hi, clo, chi. auto.
+  Qed.
+End EpanTerm.
